@@ -32,6 +32,7 @@ ASSUMPTIONS = {
     "A-LIB": "nobody but the registry adds/removes the registry's component tags in its Library between two registry calls",
     "A-DJ": "the Django / stdlib / Rust stubs in contracts/stubs_*.py (assumed contracts on dependencies; tested by the differential, not proved)",
     "A-PY": "the encoding of pyvc (ints mathematical, str = sequence of code points, by-value containers without aliasing, Burstall heap) is CPython's semantics for the constructs it accepts (tested by the differential)",
+    "A-SOLVER": "an `unsat` of z3 is believed in the quick tier (cvc5 / the z3 CLI only see what the z3 API leaves open); one z3 fault was observed (unsat for a satisfiable sequence formula, DESIGN 9.5b) - the thorough tier asks cvc5 for a second opinion on every obligation and distrusts a z3 unsat that cvc5 contradicts with a model",
     "A-INST": "universally quantified hypotheses are instantiated at finitely many ground terms before solving (only weakens hypotheses: unsat stays a proof)",
 }
 
@@ -453,7 +454,7 @@ def run_check(pid, mod, tier, seed):
     extra = getattr(mod, "EVIDENCE_EXTRA", None)
     if extra:
         coverage.update(extra() if callable(extra) else extra)
-    assumptions = [f"{k}: {v}" for k, v in ASSUMPTIONS.items() if k in getattr(mod, "ASSUMES", ["A-PY", "A-INST", "A-LOG"])]
+    assumptions = [f"{k}: {v}" for k, v in ASSUMPTIONS.items() if k in list(getattr(mod, "ASSUMES", ["A-PY", "A-INST", "A-LOG"])) + ["A-SOLVER"]]
     assumptions += list(getattr(mod, "NOT_COVERED", []))
     level = getattr(mod, "LEVEL", "proof")
 
